@@ -130,8 +130,9 @@ InBuf::~InBuf() { if (mem) munmap(mem, maplen); }
 // a canary cannot see that, and another thread's object may live there.  The others keep the trailing canary
 // zone, which contains an overrun and lets the run go on.
 static thread_local unsigned g_outbuf_seq = 0;
+static thread_local int g_outbuf_force = -1;     // plan argument tight=1 / tight=0 on a line overrides the alternation for that line
 OutBuf::OutBuf(size_t n_, unsigned align_) : n(n_), align(align_), tight(false), maplen(0) {
-    tight = align == 0 && n > 0 && (++g_outbuf_seq & 1);
+    tight = n > 0 && (g_outbuf_force == 1 || (g_outbuf_force < 0 && align == 0 && (++g_outbuf_seq & 1)));
     if (tight) {
 #ifdef DRV_ASAN
         mem = (uint8_t *)malloc(GUARD + n);
@@ -289,7 +290,9 @@ static void run_line(const std::string &s, long lineno) {
     }
     std::map<std::string, handler_t>::iterator it = g_handlers.find(a.op);
     if (it == g_handlers.end()) fatal("unknown op %s", a.op.c_str());
+    g_outbuf_force = a.has("tight") ? (int)a.num("tight") : -1;
     it->second(a);
+    g_outbuf_force = -1;
     if (sys_draws_flush) sys_draws_flush();
     obj_check_all();
 }
